@@ -38,3 +38,31 @@ def _write_contract(cls, blocks, extra_req, props):
 
 REG.add(_write_contract('SetFL_EAMTabulation', SF.elem_blocks, lambda t, v: [], ['C03', 'C17']))
 REG.add(_write_contract('SetFL_FS_EAMTabulation', SF.elem_blocks_fs, lambda t, v: [SF._all_declared_all(t['eams'](v.self))], ['C04', 'C17']))
+
+# ---------------------------------------------------------------- TABEAM classes
+from . import tabeam as TB
+def _tabeam_contract(cls, filefn, extra_req, props):
+    t = etab(cls)
+    def spec(s):
+        g = grid(t, s)
+        return filefn(g['nrho'], g['drho'], g['nr'], g['dr'], t['eams'](s), t['pots'](s), EMPTY)
+    return Contract(FILE, cls + '.write', params=[('self', T.Obj(cls)), ('fp', T.Doc)],
+        requires=lambda v: [t['nr'](v.self) >= 2, t['nrho'](v.self) >= 2] + extra_req(t, v),
+        modifies=['fp'], ensures=lambda v, old, res: [v.fp == cat(old.fp, spec(v.self))],
+        on_raise=lambda v, old: [v.fp == old.fp], carries=['post'], props=props)
+REG.add(_tabeam_contract('TABEAM_EAMTabulation', TB.tabeam_file, lambda t, v: [TB._labels_nonempty(t['eams'](v.self))], ['C05', 'C17']))
+REG.add(_tabeam_contract('TABEAM_FinnisSinclair_EAMTabulation', TB.tabeam_fs_file, lambda t, v: TB._fs_declared_sorted(t['eams'](v.self)), ['C05', 'C04', 'C17']))
+
+# ---------------------------------------------------------------- ADP: setfl followed by dipole then quadrupole blocks, unscaled
+_A = etab('ADP_EAMTabulation')
+_A['dip'] = field('ADP_EAMTabulation', 'dipole_potentials', PotList)
+_A['quad'] = field('ADP_EAMTabulation', 'quadrupole_potentials', PotList)
+def adp_file(s):
+    g = grid(_A, s)
+    return cat(setfl_tab_file(_A, s, SF.elem_blocks),
+               SF.pair_blocks(_A['dip'](s), _A['eams'](s), g['nr'], g['dr'], z3.BoolVal(False)),
+               SF.pair_blocks(_A['quad'](s), _A['eams'](s), g['nr'], g['dr'], z3.BoolVal(False)))
+REG.add(Contract(FILE, 'ADP_EAMTabulation.write', params=[('self', T.Obj('ADP_EAMTabulation')), ('fp', T.Doc)],
+    requires=lambda v: [_A['nr'](v.self) >= 2, _A['nrho'](v.self) >= 2],
+    modifies=['fp'], ensures=lambda v, old, res: [v.fp == cat(old.fp, adp_file(v.self))],
+    on_raise=lambda v, old: [v.fp == old.fp], carries=['post', 'on_raise'], props=['C19', 'C17']))
